@@ -50,8 +50,8 @@ Inner clients are created from `default_kwargs`, which has no `ignore_exc`: the 
 Not modelled: the tuple form `(server_key, key)` of a key as far as validation goes (the routing key `rk` *is* a
 separate argument here, so every way of deriving it from the key is covered; but `check_key_helper` is applied to the
 key of the call); the broadcast operations `flush_all`, `stats`, `quit`, `close` (they iterate over
-`self.clients.values()`); `set_many`; `delete_many` (a loop of `_run_cmd("delete", …)`: a sequence of single-key
-calls); `use_pooling=True`.
+`self.clients.values()`); `use_pooling=True`.  The multi-key operations `get_many` / `gets_many`, `set_many` and
+`delete_many` (a loop of `_run_cmd("delete", …)` inside one public call) are in `HashCallMany.lean`.
 -/
 namespace HashCall
 open Exchange Client Framing Failover
